@@ -63,6 +63,10 @@ def cells(tier):
         yield ("N", b)
     for f in NODIFF:
         yield ("F", f)
+    for o in CMP_OPS:
+        for kinds in (("t", "t"), ("t", "a"), ("a", "t"), ("t", "s"), ("s", "t"), ("t", "tc"), ("tc", "t")):
+            for dt in ("float64", "float32", "int64"):
+                yield ("NO", o, kinds, dt)
 
 
 def vals(shape, off, kind="any"):
@@ -382,6 +386,49 @@ def check_N(cell):
     return None
 
 
+CMP_OPS = {"lt": "less", "le": "less_equal", "gt": "greater", "ge": "greater_equal", "eq": "equal", "ne": "not_equal"}
+
+
+def check_NO(cell):
+    """comparison operators (incl. reflected forms, scalars and arrays on either side) against the NumPy function on the arrays and on
+    the tensors; operands contain NaN, +-inf, ties and signed zeros"""
+    import mygrad as mg
+
+    _, o, kinds, dt = cell
+    if dt == "int64":
+        X, Y = np.array([1, 2, -3, 4, 0]), np.array([1, -2, 2, 5, 0])
+        sc = 2
+    else:
+        X = np.array([1.5, np.nan, -3.0, np.inf, 2.0, np.nan, -0.0, -np.inf], dtype=dt)
+        Y = np.array([1.5, 0.0, np.nan, np.inf, 2.5, np.nan, 0.0, 1.0], dtype=dt)
+        sc = float("nan")
+    f = getattr(operator, o)
+    npf = getattr(np, CMP_OPS[o])
+
+    def mk(v, k):
+        return mg.tensor(v) if k == "t" else mg.tensor(v, constant=True) if k == "tc" else v.copy() if k == "a" else sc
+
+    for scv in ([sc, 2.0, 1.5] if "s" in kinds else [None]):
+        sc = scv
+        a, b = mk(X, kinds[0]), mk(Y, kinds[1])
+        ra, rb = (X if kinds[0] != "s" else sc), (Y if kinds[1] != "s" else sc)
+        ref = npf(ra, rb)
+        for label, thunk in (("a <op> b", lambda: f(a, b)), ("np.%s(a, b)" % CMP_OPS[o], lambda: npf(a, b)), ("mg.%s(a, b)" % CMP_OPS[o], lambda: getattr(mg, CMP_OPS[o])(a, b))):
+            try:
+                with np.errstate(all="ignore"):
+                    r = thunk()
+            except Exception as e:
+                eb = base.exc_brief(e)
+                del e
+                return ("exception", "%s raised %s: %s" % ((label,) + eb))
+            if isinstance(r, mg.Tensor):
+                return ("type", "%s returned a Tensor" % label)
+            r = np.asarray(r)
+            if r.dtype != ref.dtype or r.shape != ref.shape or not np.array_equal(r, ref):
+                return ("value", "%s (operand kinds %r, scalar %r): %s, numpy on the arrays: %s" % (label, kinds, sc, r, ref))
+    return None
+
+
 def check_F(cell):
     import mygrad as mg
 
@@ -412,7 +459,7 @@ def check_F(cell):
 
 
 def check(cell):
-    return {"B": check_B, "BP": check_B, "U": check_U, "R": check_R, "M": check_M, "K": check_K, "N": check_N, "F": check_F}[cell[0]](cell)
+    return {"B": check_B, "BP": check_B, "U": check_U, "R": check_R, "M": check_M, "K": check_K, "N": check_N, "F": check_F, "NO": check_NO}[cell[0]](cell)
 
 
 def nontrivial(cell):
